@@ -43,6 +43,7 @@ import Ctrmml.Proofs.MdUpd
 import Ctrmml.Proofs.MdSched
 import Ctrmml.Proofs.MdTable
 import Ctrmml.Proofs.MdSlur
+import Ctrmml.Proofs.MdExtent
 import Ctrmml.Spec.Schedule
 namespace Ctrmml.C07
 open Ctrmml Ctrmml.MdDriver Tables
@@ -658,6 +659,101 @@ theorem C07_psg_update_partial (d : Data) (song : Song) (root : List Event) (i :
       cases s'; simp only [Player.PState.mk.injEq]; exact ⟨a1, a2⟩
     rw [this]; exact hrel'
 
+/-- **When the list machine delivers what (first pass).**  Loaded with any list of items,
+the looping list machine delivers, counting the calls of `play_tick` from 0:
+ * the event of every item at the call whose number is the item's start tick — the sum of the
+   durations of the items before it;
+ * the synthetic `REST` of an item with on-time and off-time at start tick + on-time;
+ * it is still playing before every call up to number `totalDur items`;
+ * if no item is a loop point, call number `totalDur items` delivers `END` last and the machine
+   has stopped after it.
+With `C07_tick_delivery_all_passes` this is `tick_delivery` of DESIGN §6 for the first pass in its
+original form: "the channel sees the note/rest/tie/command of `perf` at exactly its tick, and a
+synthetic key-off at `start + on` when `off > 0`". -/
+theorem C07_list_machine_times (items : List Expand.Item) :
+    (∀ pre i post, items = pre ++ i :: post →
+      i.ev ∈ TickStream.lxEvents (TickStream.lxInit items) (Expand.totalDur pre)) ∧
+    (∀ pre i post, items = pre ++ i :: post → i.src.on > 0 → i.src.off > 0 →
+      PlayerCh.restEvent ∈ TickStream.lxEvents (TickStream.lxInit items) (Expand.totalDur pre + i.src.on)) ∧
+    (∀ τ, τ ≤ Expand.totalDur items → (TickStream.lxAfter τ (TickStream.lxInit items)).enabled = true) ∧
+    ((∀ i ∈ items, i.src.kind ≠ .segno) →
+      (TickStream.lxAfter (Expand.totalDur items + 1) (TickStream.lxInit items)).enabled = false ∧
+      (TickStream.lxEvents (TickStream.lxInit items) (Expand.totalDur items)).getLast? = some endEvent) := by
+  obtain ⟨h1, h2, h3⟩ := TickStream.deliver items (TickStream.lxInit items) rfl rfl rfl rfl
+  exact ⟨h1, h2, h3, fun hns => TickStream.deliver_end items (TickStream.lxInit items) rfl rfl rfl rfl rfl hns⟩
+
+/-- **Extent of the log, track without loop point** (partial: one channel track of any kind).
+In a successful export of a song with one channel track whose performance passes no `SEGNO`:
+ * no update writes a loop marker — `updOps k` is just the register writes of update `k`;
+ * the log ends with the update that plays tick `D = totalDur items`, the tick at which the track
+   ends (`END` is delivered, `C07_list_machine_times`): `N_K ≤ D < N_{K+1}` for the last update
+   `K`, with `N` the tick counter of `C07_tempo_table_partial`; the waits of the log sum to
+   `735·K` samples.
+This is `export_extent` of DESIGN §6 for songs without loop point, as the schedule oracle judges
+it (`extent=end`: the log ends in update `F(longest track)`), for one channel.  Not proved: several
+channels (the last one to end decides), and looping songs — the loop-count lemma ("after the
+jump back the reset position is re-crossed one loop length after the marker") stays with the
+oracle (`extent=loop`). -/
+theorem C07_export_extent_noloop_partial (d : Data) (song : Song) (tags : Vgm.Tags) (ops : List Vgm.Op)
+    (id : Nat) (root : List Event)
+    (hexp : exportOps d song tags = .ok ops) (hsingle : SingleTrack song id root)
+    (hs : Refine.SongNoEnd song) (hr : Tree.NoEnd root) (hplain : TickStream.PlainCode song root)
+    (items : List Expand.Item) (hperf : Expand.perf song root = .ok items)
+    (hfuel : ∀ k outs, Refine.stepsCore song root k ⟨.root, 0, []⟩ = .ok (⟨.root, root.length, []⟩, outs) →
+      2 * k + 2 ≤ PlayerCh.settleFuel)
+    (hns : ∀ i ∈ items, i.src.kind ≠ .segno) :
+    ∃ K L, ops = ctorPokes ++ (playSong d song).2 ++ L ++ [Vgm.Op.stop, Vgm.Op.writeTag tags] ∧
+      stamps 0 L = schedLog d song (playSong d song).1 (K + 1) ∧ delaySum L = 735 * K ∧
+      (∀ k, k ≤ K → updOps d song (playSong d song).1 k = (updWrs d song (playSong d song).1 k).flatMap Wr.toOps) ∧
+      (updRun d song K (playSong d song).1).ticks ≤ Expand.totalDur items ∧
+      Expand.totalDur items < (updRun d song (K + 1) (playSong d song).1).ticks := by
+  obtain ⟨K, L, h1, h2, h3, h4, h5, h6⟩ := exportOps_log d song tags ops hexp
+  have hB : 2 * 49999 + 2 ≤ PlayerCh.settleFuel := by unfold PlayerCh.settleFuel; decide
+  have hseg := TickStream.segTop_of_noSegno song root hs hr items hperf hns
+  have hrel := TickStream.relX_init song root hs hr items hperf 49999
+    (fun k outs h => by have := hfuel k outs h; unfold PlayerCh.settleFuel at this; omega) hseg
+  have hnl : NoLoop (TickStream.lxInit items) := ⟨rfl, hns⟩
+  have hpl := TickStream.plainHooks_of song root hplain
+  have hstop := fun k hk => single_noloop d song root id hsingle _ 49999 (TickStream.endOK_root song root) hB hpl _ hnl hrel k
+    (fun j hj => h6 j (Nat.le_trans hj hk))
+  obtain ⟨t1, t2, t3, t4⟩ := C07_list_machine_times items
+  -- once stopped, the machine stays stopped
+  have hstay : ∀ a b, (TickStream.lxAfter a (TickStream.lxInit items)).enabled = false →
+      (TickStream.lxAfter (a + b) (TickStream.lxInit items)).enabled = false := by
+    intro a b h
+    rw [TickStream.lxAfter_add]
+    generalize TickStream.lxAfter a (TickStream.lxInit items) = m at h
+    induction b generalizing m with
+    | zero => exact h
+    | succ b ih =>
+      have : TickStream.lxTick m = (m, []) := by simp [TickStream.lxTick, h]
+      simp only [TickStream.lxAfter, this]; exact ih m h
+  refine ⟨K, L, h1, h2, h3, ?_, ?_, ?_⟩
+  · intro k hk
+    rw [updOps_eq, (hstop (K + 1) (Nat.le_refl _)).2 k (by omega), List.append_nil]
+  · -- still playing before update K
+    cases K with
+    | zero =>
+      have : (updRun d song 0 (playSong d song).1).ticks = 0 := by
+        simp only [updRun]; simp [playSong]
+      rw [this]; exact Nat.zero_le _
+    | succ K' =>
+      have hen : (TickStream.lxAfter (updRun d song (K' + 1) (playSong d song).1).ticks (TickStream.lxInit items)).enabled = true := by
+        have := h5 (K' + 1) (by omega) (Nat.le_refl _)
+        rw [(hstop (K' + 1) (by omega)).1] at this
+        simpa using this
+      rcases Nat.lt_or_ge (Expand.totalDur items) (updRun d song (K' + 1) (playSong d song).1).ticks with h | h
+      · obtain ⟨b, hb⟩ : ∃ b, (updRun d song (K' + 1) (playSong d song).1).ticks = (Expand.totalDur items + 1) + b :=
+          ⟨(updRun d song (K' + 1) (playSong d song).1).ticks - (Expand.totalDur items + 1), by omega⟩
+        rw [hb, hstay _ b (t4 hns).1] at hen
+        cases hen
+      · exact h
+  · -- stopped after update K
+    have hdis := (hstop (K + 1) (Nat.le_refl _)).1.mp h4
+    rcases Nat.lt_or_ge (Expand.totalDur items) (updRun d song (K + 1) (playSong d song).1).ticks with h | h
+    · exact h
+    · rw [t3 _ h] at hdis; cases hdis
+
 /-! ### non-vacuity of the whole-log theorems -/
 /-- FM channel A: `note 40 (on 2, off 1)  L  note 42 (on 2, off 2)` -/
 def exLoopRoot : List Event := [⟨ev_NOTE, 40, 2, 1⟩, ⟨ev_SEGNO, 0, 0, 0⟩, ⟨ev_NOTE, 42, 2, 2⟩]
@@ -770,6 +866,23 @@ example :
       (playSong { ins := [] } { tracks := [(6, [⟨ev_VOL, 12, 0, 0⟩, ⟨ev_NOTE, 40, 2, 1⟩])] }).1 k)) =
     [[3, 3], [], [15], [15]] ∧ psgAtt true 12 0x10 = 3 := by
   decide +kernel
+
+/-- the hypotheses of `C07_export_extent_noloop_partial` hold for `shortNoteSong` (no loop point); its track
+lasts 9 ticks, at T255 the tick counter before the updates is 0, 1, 3, 5, 7, 9, 11: the log ends with update 5
+(`9 ≤ 9 < 11`), 3675 samples -/
+example :
+    SingleTrack shortNoteSong 0 [⟨ev_TEMPO, 255, 0, 0⟩, ⟨ev_REST, 0, 0, 1⟩, ⟨ev_NOTE, 40, 1, 3⟩, ⟨ev_REST, 0, 0, 4⟩] ∧
+    Expand.perf shortNoteSong [⟨ev_TEMPO, 255, 0, 0⟩, ⟨ev_REST, 0, 0, 1⟩, ⟨ev_NOTE, 40, 1, 3⟩, ⟨ev_REST, 0, 0, 4⟩] =
+      .ok ([⟨ev_TEMPO, 255, 0, 0⟩, ⟨ev_REST, 0, 0, 1⟩, ⟨ev_NOTE, 40, 1, 3⟩, ⟨ev_REST, 0, 0, 4⟩].map Expand.item) ∧
+    (∀ i ∈ ([⟨ev_TEMPO, 255, 0, 0⟩, ⟨ev_REST, 0, 0, 1⟩, ⟨ev_NOTE, 40, 1, 3⟩, ⟨ev_REST, 0, 0, 4⟩] : List Event).map Expand.item,
+      i.src.kind ≠ .segno) ∧
+    Expand.totalDur (([⟨ev_TEMPO, 255, 0, 0⟩, ⟨ev_REST, 0, 0, 1⟩, ⟨ev_NOTE, 40, 1, 3⟩, ⟨ev_REST, 0, 0, 4⟩] : List Event).map Expand.item) = 9 ∧
+    ((List.range 7).map fun k => (updRun { ins := [] } shortNoteSong k (playSong { ins := [] } shortNoteSong).1).ticks) =
+      [0, 1, 3, 5, 7, 9, 11] ∧
+    (match exportOps { ins := [] } shortNoteSong exNoTags with
+      | .ok ops => delaySum ops
+      | .error _ => 0) = 735 * 5 := by
+  refine ⟨⟨[], rfl, by decide, by simp⟩, rfl, by decide, by decide, ?_, ?_⟩ <;> decide +kernel
 
 /-! ### the full statement (not proved; decided per export by the schedule oracle) -/
 /-- no keyed note ends inside the update it starts in: an update plays at most two ticks
